@@ -12,7 +12,7 @@ self-contained so the two properties do not block each other.)
 
 Go `[]byte` is `List UInt8`.  `nil` and the empty slice are identified, which is
 what `bytes.Equal` does; the ONE place where Go distinguishes them —
-`computeHashFromAunts` returning `nil` for "malformed" — is an `Option`.
+`computeHashFromAunts` returning `nil` for "malformed", tested by `Verify` — is an `Option`.
 Core-only.
 -/
 namespace GnoVerif.C39
@@ -122,11 +122,13 @@ def computeRev : Nat → Nat → Bytes → List Bytes → Option Bytes
 def computeHashFromAunts (index total : Nat) (leaf : Bytes) (aunts : List Bytes) : Option Bytes :=
   computeRev H index total leaf aunts.reverse
 
-/-- `bytes.Equal(computed, rootHash)` where `computed` may be Go-`nil`:
-`bytes.Equal(nil, r)` holds iff `len(r) = 0`. -/
-def goBytesEqual (computed : Option Bytes) (root : Bytes) : Bool :=
+/-- `computedHash != nil && bytes.Equal(computedHash, rootHash)`.
+(Until /repo commit 96b4d2262f the nil check was missing and `bytes.Equal(nil, r)` held for an
+empty `r`: a header with an empty hash accepted malformed proofs.  The correspondence run of this
+property flagged the change of behaviour when that fix landed; the model follows the code.) -/
+def rootMatches (computed : Option Bytes) (root : Bytes) : Bool :=
   match computed with
-  | none => root.isEmpty
+  | none => false
   | some h => h == root
 
 /-- `(*SimpleProof).Verify(rootHash, leaf) == nil`, with the checks in source order. -/
@@ -134,11 +136,10 @@ def Proof.verify (sp : Proof) (root leaf : Bytes) : Bool :=
   if sp.total < 0 then false
   else if sp.index < 0 then false
   else if sp.leafHash ≠ GnoVerif.C39.leafHash H leaf then false
-  else goBytesEqual (computeHashFromAunts H sp.index.toNat sp.total.toNat sp.leafHash sp.aunts) root
+  else rootMatches (computeHashFromAunts H sp.index.toNat sp.total.toNat sp.leafHash sp.aunts) root
 
-/-- The strict reading of "the proof matches the header": the aunts have exactly
-the shape of a path in a `total`-leaf tree and hash up to `root`.  Differs from
-`verify` only when `root` is empty (see `Props/C39.lean`, finding `nilroot`). -/
+/-- "The proof matches the header", stated directly: the aunts have exactly the shape of a
+path in a `total`-leaf tree and hash up to `root` (`Props/C39.lean`: `verify = verifyStrict`). -/
 def Proof.verifyStrict (sp : Proof) (root leaf : Bytes) : Bool :=
   decide (0 ≤ sp.total) && decide (0 ≤ sp.index) && decide (sp.leafHash = GnoVerif.C39.leafHash H leaf) &&
   (computeHashFromAunts H sp.index.toNat sp.total.toNat sp.leafHash sp.aunts == some root)
